@@ -306,10 +306,171 @@ theorem ident_keyOK (k : Bytes) (h : Ident k) : KeyOK k := by
   obtain ⟨hne, hall⟩ := h
   have hno : ∀ c ∈ k, c ≠ 61 ∧ c ≠ 10 ∧ c ≠ 47 ∧ ¬ White c ∧ (47 < c ∧ c < 128 ∧ c ≠ 59 ∧ c ≠ 91) :=
     fun c hc => ident_byte c (hall c hc)
-  refine ⟨hne, fun h => (hno 61 h).1 rfl, fun h => (hno 10 h).2.1 rfl, fun h => (hno 47 h).2.2.1 rfl, ?_, ?_⟩
+  refine ⟨hne, fun h => (hno 61 h).1 rfl, fun h => (hno 10 h).2.1 rfl, fun h => (hno 47 h).2.2.1 rfl, ?_, ?_, ?_⟩
   · intro c hc
     exact (hno c (List.mem_of_mem_head? hc)).2.2.2.2
   · intro c hc
     exact (hno c (List.mem_of_getLast? hc)).2.2.2.1
+  · intro h0
+    exact absurd (hno 0 h0).2.2.2.2.1 (by decide)
+
+
+/-- the byte strings of an operation are C strings -/
+def AnyOp.NulFree : AnyOp → Prop
+  | .set n v => 0 ∉ n ∧ 0 ∉ v
+  | .put n v => 0 ∉ n ∧ 0 ∉ v
+  | .write => True
+
+/-! ## order of lines, from the old file to the new file -/
+
+theorem readFold_lines (ls : List Bytes) (st : RState) (h : ∀ l ∈ ls, classifyR l ≠ .garbage) :
+    (ls.foldl (readStep true) st).lines = st.lines ++ ls := by
+  induction ls generalizing st with
+  | nil => simp
+  | cons l t ih =>
+    have hl := h l (by simp)
+    rw [List.foldl_cons, ih _ (fun x hx => h x (by simp [hx]))]
+    unfold readStep
+    cases hc : classifyR l with
+    | garbage => exact absurd hc hl
+    | skip => simp
+    | header n => simp
+    | kv a b => simp
+
+theorem finish_lines (sw : Bool) (st : RState) : (finish sw st).lines = stripTrail st.lines := by
+  unfold finish; split <;> rfl
+
+theorem finish_indent (sw : Bool) (st : RState) : (finish sw st).indent = st.indent := by
+  unfold finish; split <;> rfl
+
+/-- `stripTrail` only drops empty lines at the end -/
+theorem stripTrail_split (ls : List Bytes) : ∃ d : List Bytes, (∀ l ∈ d, l = []) ∧ stripTrail ls ++ d = ls := by
+  cases ls with
+  | nil => exact ⟨[], by simp, rfl⟩
+  | cons a t =>
+    refine ⟨(t.reverse.takeWhile (·.isEmpty)).reverse, ?_, ?_⟩
+    · intro l hl
+      have hall : ∀ (xs : List Bytes), ∀ x ∈ xs.takeWhile (·.isEmpty), x = [] := by
+        intro xs
+        induction xs with
+        | nil => simp
+        | cons y ys ih =>
+          intro x hx
+          by_cases hy : y.isEmpty = true
+          · simp only [List.takeWhile_cons, hy, if_true, List.mem_cons] at hx
+            rcases hx with e | e
+            · subst e; simpa using hy
+            · exact ih x e
+          · simp [hy] at hx
+      exact hall _ l (List.mem_reverse.mp hl)
+    · simp only [stripTrail, List.cons_append, List.cons.injEq, true_and]
+      rw [← List.reverse_append, List.takeWhile_append_dropWhile, List.reverse_reverse]
+
+/-- the `_lines` of a fresh `IniFile` on the text of a document: the document's lines, possibly followed by
+    empty lines, less the empty lines at the end -/
+theorem read_lines_doc (doc : List Item) (hd : ∀ it ∈ doc, it.WF) (eol : Bytes) (he : LineEnd eol) (fnl : Bool) :
+    ∃ b1 b2 : List Bytes, (∀ l ∈ b1, l = []) ∧ (∀ l ∈ b2, l = []) ∧
+      (Ini.read (renderDoc doc eol fnl) true).lines ++ b1 = doc.map Item.render ++ b2 := by
+  unfold AslModel.Ini.read renderDoc
+  obtain ⟨extra, hex, heq⟩ := fileLines_join eol he fnl (doc.map Item.render) (by
+    intro l hl
+    obtain ⟨it, hit, rfl⟩ := List.mem_map.mp hl
+    exact render_lineOK it (hd it hit))
+  rw [heq]
+  unfold readLines
+  rw [finish_lines, readFold_lines]
+  · obtain ⟨d, hd1, hd2⟩ := stripTrail_split (initR.lines ++ (doc.map Item.render ++ extra))
+    refine ⟨d, extra, hd1, hex, ?_⟩
+    rw [hd2]; simp [initR]
+  · intro l hl
+    rcases List.mem_append.mp hl with e | e
+    · obtain ⟨it, hit, rfl⟩ := List.mem_map.mp e
+      exact classifyR_render_ne_garbage it (hd it hit)
+    · rw [hex l e]; simp [classifyR]
+
+theorem write_keeps (ini : Ini) (r : WriteResult) (hw : write ini = some r) :
+    r.ini.lines = ini.lines ∧ r.ini.indent = ini.indent := by
+  unfold write at hw
+  simp only at hw
+  split at hw
+  · simp at hw
+  · simp only [Option.some.injEq] at hw
+    subst hw
+    exact ⟨rfl, rfl⟩
+
+/-- the file is the original one, or a text that keeps every line of `L` in order -/
+def FileOrd (L : List Bytes) (I orig f : Bytes) : Prop :=
+  f = orig ∨ ∃ kept out : List Bytes, f = joinLines out ∧ kept.Sublist out ∧ Pointwise (SameLine I) L kept
+
+theorem set_indent (ini : Ini) (n v : Bytes) : (Ini.set ini n v).indent = ini.indent := by
+  unfold AslModel.Ini.set put; split <;> rfl
+
+theorem run_order (ops : List Op) (st st' : Ini × Bytes) (orig : Bytes)
+    (hf : FileOrd st.1.lines st.1.indent orig st.2) (hr : run st ops = some st') :
+    st'.1.lines = st.1.lines ∧ st'.1.indent = st.1.indent ∧ FileOrd st.1.lines st.1.indent orig st'.2 := by
+  induction ops generalizing st with
+  | nil => simp only [run, Option.some.injEq] at hr; subst hr; exact ⟨rfl, rfl, hf⟩
+  | cons o t ih =>
+    simp only [run] at hr
+    cases o with
+    | set o =>
+      simp only [step] at hr
+      have h1 : (Ini.set st.1 (path o.sec o.key) o.val).lines = st.1.lines := set_lines _ _ _
+      have h2 : (Ini.set st.1 (path o.sec o.key) o.val).indent = st.1.indent := set_indent _ _ _
+      have := ih (Ini.set st.1 (path o.sec o.key) o.val, st.2) (by simp only [h1, h2]; exact hf) hr
+      simpa only [h1, h2] using this
+    | write =>
+      simp only [step] at hr
+      cases hw : Ini.write st.1 with
+      | none => simp [hw] at hr
+      | some r =>
+        simp only [hw, Option.map_some] at hr
+        obtain ⟨h1, h2⟩ := write_keeps st.1 r hw
+        have hf' : FileOrd r.ini.lines r.ini.indent orig (r.text.getD st.2) := by
+          rw [h1, h2]
+          cases ht : r.text with
+          | none => exact hf
+          | some tx =>
+            obtain ⟨kept, out, e1, e2, e3⟩ := write_order st.1 r hw tx ht
+            exact Or.inr ⟨kept, out, e1, e2, e3⟩
+        have := ih (r.ini, r.text.getD st.2) hf' hr
+        simpa only [h1, h2] using this
+
+/-- a line that the first loop of `write` does not rewrite -/
+def isEntryLine (l : Bytes) : Bool :=
+  match classifyW l with
+  | .kv _ _ => true
+  | _ => false
+
+theorem pointwise_filter (I : Bytes) (L kept : List Bytes) (h : Pointwise (SameLine I) L kept) :
+    (L.filter fun l => !isEntryLine l && !l.isEmpty).Sublist kept := by
+  induction h with
+  | nil => exact List.Sublist.refl _
+  | @cons a b l l' hab _ ih =>
+    by_cases hp : (!isEntryLine a && !a.isEmpty) = true
+    · rw [List.filter_cons_of_pos (p := fun l => !isEntryLine l && !l.isEmpty) hp]
+      have hne : isEntryLine a = false := by
+        simp only [Bool.and_eq_true, Bool.not_eq_true'] at hp; exact hp.1
+      have : b = a := by
+        unfold SameLine at hab
+        unfold isEntryLine at hne
+        cases hc : classifyW a with
+        | kv x y => simp [hc] at hne
+        | skip => simpa [hc] using hab
+        | garbage => simpa [hc] using hab
+        | header n => simpa [hc] using hab
+      subst this
+      exact ih.cons₂ _
+    · rw [List.filter_cons_of_neg (p := fun l => !isEntryLine l && !l.isEmpty) hp]
+      exact ih.cons _
+
+theorem filter_append_blanks (p : Bytes → Bool) (hp : p [] = false) (a b : List Bytes) (hb : ∀ l ∈ b, l = []) :
+    (a ++ b).filter p = a.filter p := by
+  rw [List.filter_append]
+  have : b.filter p = [] := by
+    apply List.filter_eq_nil_iff.mpr
+    intro l hl; rw [hb l hl, hp]; simp
+  simp [this]
+
 
 end AslProofs.Ini
